@@ -115,7 +115,7 @@ Gauden(f) ==
                                              ELSE LET c == ChkState(f, H, dend) IN
                                                   IF c = "F" THEN Bad("gau:checksum")
                                                   ELSE IF c = "U" THEN Unk("gau:checksum")
-                                                  ELSE [st |-> "ok", end |-> EndOf(H, dend), sw |-> H.sw, chk |-> H.chk,
+                                                  ELSE [st |-> "ok", pos |-> H.pos, dend |-> dend, end |-> EndOf(H, dend), sw |-> H.sw, chk |-> H.chk,
                                                         d |-> [n_mgau |-> nm, n_feat |-> nf, n_density |-> nd, veclen |-> vl],
                                                         flds |-> H.flds \o <<Fld("n_mgau", p, "i32", nm), Fld("n_feat", p + 4, "i32", nf),
                                                                              Fld("n_density", p + 8, "i32", nd)>>
@@ -141,7 +141,7 @@ Tmat(f) ==
                       ELSE LET c == ChkState(f, H, dend) IN
                            IF c = "F" THEN Bad("tmat:checksum")
                            ELSE IF c = "U" THEN Unk("tmat:checksum")
-                           ELSE [st |-> "ok", end |-> EndOf(H, dend), sw |-> H.sw, chk |-> H.chk,
+                           ELSE [st |-> "ok", pos |-> H.pos, dend |-> dend, end |-> EndOf(H, dend), sw |-> H.sw, chk |-> H.chk,
                                  d |-> [n_tmat |-> w[1], n_state |-> w[2]],
                                  flds |-> H.flds \o <<Fld("n_tmat", p, "i32", w[1]), Fld("n_src", p + 4, "i32", w[2]),
                                                       Fld("n_dst", p + 8, "i32", w[3]), Fld("n", p + 12, "i32", w[4]),
@@ -160,7 +160,7 @@ Mixw(f) ==
                       dend == p + 16 + 4 * w[4]
                   IN  IF ~ProdIs(w[4], <<w[1], w[2], w[3]>>) THEN Bad("mixw:count-is-not-product")
                       ELSE IF w[4] > (f.len - (p + 16)) \div 4 THEN Bad("mixw:data-cut")
-                      ELSE [st |-> "ok", end |-> EndOf(H, dend), sw |-> H.sw, chk |-> H.chk, csum |-> ChkState(f, H, dend),
+                      ELSE [st |-> "ok", pos |-> H.pos, dend |-> dend, end |-> EndOf(H, dend), sw |-> H.sw, chk |-> H.chk, csum |-> ChkState(f, H, dend),
                             d |-> [n_sen |-> w[1], n_feat |-> w[2], n_comp |-> w[3]],
                             flds |-> H.flds \o <<Fld("n_sen", p, "i32", w[1]), Fld("n_feat", p + 4, "i32", w[2]),
                                                  Fld("n_comp", p + 8, "i32", w[3]), Fld("n", p + 12, "i32", w[4]),
@@ -184,7 +184,7 @@ Lda(f) ==
                            ELSE LET c == ChkState(f, H, dend) IN
                                 IF c = "F" THEN Bad("lda:checksum")
                                 ELSE IF c = "U" THEN Unk("lda:checksum")
-                                ELSE [st |-> "ok", end |-> EndOf(H, dend), sw |-> H.sw, chk |-> H.chk,
+                                ELSE [st |-> "ok", pos |-> H.pos, dend |-> dend, end |-> EndOf(H, dend), sw |-> H.sw, chk |-> H.chk,
                                       d |-> [n_lda |-> w[1], rows |-> w[2], cols |-> w[3]],
                                       flds |-> H.flds \o <<Fld("n_lda", p, "i32", w[1]), Fld("rows", p + 4, "i32", w[2]),
                                                            Fld("cols", p + 8, "i32", w[3]), Fld("n", p + 12, "i32", w[4]),
